@@ -1,6 +1,7 @@
 (* Single entry point of the executable models: function id + argument tree -> result tree. *)
 From PV Require Export Model.ComponentsX Model.EnginesX Model.SelectX Model.SimulatorX.
 From PV Require Model.ConnectorX.  (* C10; qualified *)
+From PV Require Export Model.CatalogX.
 From PV Require Model.RemoteJob.   (* not exported: its short names (step, run, status, ...) stay qualified *)
 From PV Require Export Model.LocalJobX.
 From PV Require Export Model.DetectorX.
@@ -30,5 +31,7 @@ Definition dispatch (f : Z) (x : sx) : sx :=
   | 1105 => x_perm_util x | 1106 => x_update_adjacent x | 1107 => x_close x
   | 1200 => x_close_to x | 1201 => x_diag_equiv x | 1202 => x_decomp x
   | 1000 => ConnectorX.x_conn_run x | 1001 => ConnectorX.x_ps_eval_all x | 1002 => ConnectorX.x_gen_perm x
+  (* C20: catalog gates in their towers, parametrised gates, controlled-rotation block, logical action on a dyadic grid *)
+  | 2000 => x_cat_gate x | 2001 => x_logical_zi x | 2002 => x_param_gate x | 2003 => x_crot x
   | _ => L []
   end%Z.
